@@ -62,7 +62,7 @@ class UnitResult:
 
 
 def obligations_of(f):
-    if f["mode"] == "spec":
+    if f["mode"] in ("spec", "external", "declared"):
         return 0
     return f["ensures"] + f["invariants"] + f["asserts"] + 1  # +1: safety (overflow, bounds, callee preconditions, panics, termination)
 
@@ -211,7 +211,10 @@ def run_unit(unit, seed=None, rlimit=None, canary_for=None, extra_tag="", num_th
     # functions Verus never mentioned (spec fns, consts): mark spec as n/a
     for f in res.functions.values():
         if f["status"] == "unknown":
-            f["status"] = "verified" if res.status in ("ok", "failed") and f["mode"] == "spec" else f["status"]
+            if f["mode"] in ("external", "declared"):
+                f["status"] = "assumed"
+            elif res.status in ("ok", "failed") and f["mode"] == "spec":
+                f["status"] = "verified"
     return res
 
 
